@@ -3,6 +3,7 @@
 from __future__ import annotations
 
 import ast
+import re
 
 from ..cfg import build_cfg, calls_in, node_calls
 from ..core import Ctx, property_info, rule, share
@@ -286,14 +287,16 @@ def xmlns_attributes(ctx: Ctx) -> None:
     fresh = bool(init) and all(_fresh(v) for _, v in init)
     ctx.ob("build_ns_map starts every element from a freshly built dict", fresh, at=fi, node=init[0][0] if init else None, construct="fresh ns_map",
            msg="the map object is shared between elements (and between DTDs): the last xmlns declaration wins for all of them")
-    sets = [(st, tgt) for st, tgt, v in stores(fi.node) if isinstance(tgt, ast.Subscript) and isinstance(tgt.value, ast.Name) and tgt.value.id in ret_names]
-    ctx.floor("xmlns binding stores", len(sets), 2)
+    # bindings taken from the element's own attributes (value = <attribute>.default_value, through temporaries) - not the built-in prefixes
+    sets = [(st, tgt) for st, tgt, v in stores(fi.node) if isinstance(tgt, ast.Subscript) and isinstance(tgt.value, ast.Name) and tgt.value.id in ret_names and v is not None
+            and any(isinstance(x, ast.Attribute) and x.attr == "default_value" for leaf in leaves_at(fi, st, v) for x in ast.walk(leaf))]
+    ctx.floor("xmlns binding stores", len(sets), 1)
     rem = [x for x in g.stmts() if any(isinstance(c.func, ast.Attribute) and c.func.attr == "remove" and unparse(c.func.value) == "attributes" for c in node_calls(x))]
     loops = [n for n in g.nodes if n.kind == "for"]
     for i, (st, tgt) in enumerate(sets):
         n = g.node_of(st)
         # on every path from the binding back to the loop head (or to the exit) the attribute is removed
-        targets = [l.id for l in loops] + [g.exit]
+        targets = [l.id for l in loops if n is not None and n.id in g.reachable([m for m, lab in g.succ[l.id] if lab == "iter"], blocked=[l.id])] + [g.exit]
         ok = n is not None and bool(rem) and all(g.must_pass(n.id, t, [r.id for r in rem]) for t in targets)
         ctx.ob(f"xmlns binding #{i + 1} ({L(fi, tgt.slice)}) is followed by attributes.remove(attribute)", ok, at=fi, node=st, construct=f"xmlns binding {L(fi, tgt.slice)} removed", msg="the xmlns declaration stays in the attribute list and becomes a field")
     # the list that is modified in the loop is iterated over a snapshot (copy / list / slice / tuple), never a lazy view of itself
@@ -304,7 +307,9 @@ def xmlns_attributes(ctx: Ctx) -> None:
             return True
         return isinstance(it, (ast.ListComp, ast.List, ast.Tuple))
 
-    its = [expand_at(fi, l, l.ast.iter) for l in loops if l.ast is not None]
+    # (the loops in whose body the list is modified)
+    mod_loops = [l for l in loops if any(r.id in g.reachable([m for m, lab in g.succ[l.id] if lab == "iter"], blocked=[l.id]) for r in rem)]
+    its = [expand_at(fi, l, l.ast.iter) for l in mod_loops if l.ast is not None]
     ctx.ob("the attribute list is iterated over a copy while it is modified", bool(its) and all(_snapshot(it) for it in its), at=fi, construct="iterate copy", msg="removal during iteration skips attributes")
     be = ctx.repo.func(f"{DP}:DtdParser.build_element")
     gbe = build_cfg(be.node)
@@ -537,8 +542,10 @@ def emitted_head_is_imported_name(ctx: Ctx) -> None:
         ctx.ob("build_imports takes the module from tp.__module__", "_.__module__" in mod_forms, at=bi, construct="import module source", msg=f"module is {sorted(mod_forms)[:2]}")
         name_leaves = [leaf for leaf, _ in flows(fx, node, holes[1])]
         name_src = " ".join(sorted({x for leaf in name_leaves for x in forms(fx, node, leaf)} | {anon_text(leaf, fx.node) for leaf in name_leaves}))
-        top = any(A(p) in whole for p in (".split('.')[0]", ".split('.',1)[0]", ".partition('.')[0]", '.split(".")[0]', '.split(".",1)[0]', '.partition(".")[0]'))
-        contraband = [p for p in ("rsplit", "rpartition", ".__name__", "[-1]", "[-2]") if p in whole]
+        leaf_texts = {t for leaf in name_leaves for t in value_texts(fx, node, leaf)} | {unparse(leaf) for leaf in name_leaves}
+        first_part = re.compile(r"""\.(split|partition)\(['"]\.['"](,\s*1)?\)\[0\]""")
+        top = any(first_part.search(t) for t in leaf_texts) or any(first_part.search(unparse(x)) for f_ in family(ctx.repo, bi) for x in ast.walk(f_.node) if isinstance(x, ast.Subscript))
+        contraband = [p for p in ("rsplit", "rpartition", ".__name__", "[-1]", "[-2]") if any(p in t for t in leaf_texts)]
         ctx.ob("build_imports takes the name from tp.__qualname__ and imports its top-level (first) component", "__qualname__" in name_src + whole and top and not contraband, at=bi, construct="import top-level",
                msg="an inner class is imported by a dotted name (SyntaxError), by its immediate outer class or by __name__" + (f" ({contraband})" if contraband else ""))
         ctx.ob("builtins are not imported", any(("'builtins'" in txt and (("!=" in txt and pol) or ("==" in txt and not pol))) for txt, pol in conds), at=bi, construct="builtins skipped", msg="from builtins import ...")
